@@ -277,13 +277,15 @@ class History:
             self.v("C08", "values(%s, %s) differs from the reference" % (za, zb))
 
     def sweep_ranges(self, t, d):
+        """all (start, end) pairs over present keys, gaps, sentinels and None"""
         zs = sorted(self.universe)
+        present = sorted(self.keys.info[id(k)][0] for k in d)
+        pick = present if len(present) <= 5 else [present[(len(present) - 1) * i // 4] for i in range(5)]
         pts = set()
-        for z in zs[:24]:
+        for z in pick:
             pts.update((z, z + 1))
         if zs:
-            pts.update((zs[0] - 1, zs[0] - 7, zs[-1] + 1, zs[-1] + 9))
-        pts.update((0,))
+            pts.update((zs[0] - 1, zs[-1] + 1, zs[len(zs) // 2]))
         ends = [None] + sorted(pts)
         for za in ends:
             for zb in ends:
